@@ -119,7 +119,7 @@ SWEEP_C = r"""
 #include "vh.h"
 #include "wbxml_parser.c"
 /* exhaustive write->read sweep of [lo, hi) on the C: value, length and leading byte */
-static unsigned mblen(unsigned long long v){ return v < 128 ? 1 : v < 16384 ? 2 : v < 2097152 ? 3 : v < 268435456 ? 4 : 5; }
+static unsigned vf_mblen(unsigned long long v){ return v < 128 ? 1 : v < 16384 ? 2 : v < 2097152 ? 3 : v < 268435456 ? 4 : 5; }
 int main(int argc, char **argv) {
     unsigned long long lo = strtoull(argv[1], 0, 10), hi = strtoull(argv[2], 0, 10), v, bad = 0;
     WBXMLParser *p = wbxml_parser_create();
@@ -131,7 +131,7 @@ int main(int argc, char **argv) {
         if (!wbxml_buffer_append_mb_uint_32(b, (WB_ULONG) v)) { bad++; printf("FAIL append %llu\n", v); continue; }
         p->pos = 0;
         if (parse_mb_uint32(p, &r) != WBXML_OK || r != (WB_ULONG) v || p->pos != wbxml_buffer_len(b) ||
-            wbxml_buffer_len(b) != mblen(v) || (mblen(v) > 1 && wbxml_buffer_get_cstr(b)[0] == 0x80)) {
+            wbxml_buffer_len(b) != vf_mblen(v) || (vf_mblen(v) > 1 && wbxml_buffer_get_cstr(b)[0] == 0x80)) {
             bad++; if (bad < 20) printf("FAIL %llu\n", v);
         }
     }
